@@ -46,7 +46,14 @@ def run(ctx):
         who = pnc.get('lint', 'run')
         vlib.report(ctx, '%s:%s' % (who, 'recovered-panic' if 'recovered' in pnc else 'escaped-or-hung'), '%s on %s: %s' % (who, pnc['id'], pnc.get('recovered', pnc.get('escaped', 'hung'))[:200]),
                     dict(kind='plant', id=pnc['id'], der_b64=pnc.get('der')))
-    cov = dict(evaluations=s['parsed'] + planted, distinct_nontrivial=s['triples'],
+    # the same prohibition under every well-typed configuration of the catalogue (option values flipped, lists shortened / emptied /
+    # extended by the names of sibling fields): a section that can be applied never makes its lint fail internally
+    for k in ('VERIF_MULTI', 'VERIF_MULTI_FULL', 'VERIF_MULTI_SKIP'):
+        vlib.GOENV.pop(k, None)
+    histcommon.cfg_probe(ctx, exe)
+    hs, _ = histcommon.judge(ctx, exe, 'config', 'c02', {'panic-escaped', 'recovered-panic-under-an-applicable-section'},
+                             lambda r: '%s:%s' % (r['lint'] or 'run', r['why']))
+    cov = dict(evaluations=s['parsed'] + planted + hs['lint_calls'], configurations=hs.get('configurations'), distinct_nontrivial=s['triples'],
                rule='evaluation = one parser-accepted mutant linted with the whole registry; mutation space = Plan_Mutate.tla (17 node classes x 22 operators) applied at every TLV node - also '
                     'inside extension values and keys - of carrier objects chosen so that every lint has a carrier on which it is not NA; non-trivial = distinct (node class, operator, lint) with the lint not NA',
                samples=[s['sample']], planted_inputs=planted, mutants=s['mutants'], carriers=s['carriers'], parser_panics=s['parser_panics'],
@@ -57,10 +64,17 @@ def run(ctx):
 def replay(ctx, rp):
     exe = vlib.build(ctx)
     r = rp['replay']
+    from checks import histcommon
+    if r.get('kind') == 'history':
+        d, _ = histcommon.run_history(ctx, exe, 'config', 'replay', only=r['obj'])
+        rej, _ = histcommon.validate(ctx, os.path.join(d, 'history.ndjson'), shards=1)
+        rej = [x for x in rej if x['why'] in ('panic-escaped', 'recovered-panic-under-an-applicable-section')]
+        for x in rej:
+            print('REJECT', x['lint'], x['why'], x['info'], x['event'].get('tag'), x['event'].get('panicMsg', '')[:200])
+        return 1 if rej else 0
     rec, out = vlib.tlc_mc(ctx, 'Plan_Mutate', 'Plan_Mutate', workers=1)
     exp = ctx.path('plan.out')
     open(exp, 'w').write(out)
-    from checks import histcommon
     histcommon.plan_multi(ctx)
     vlib.GOENV['VERIF_MULTI_FULL'] = '1'
     d2 = vlib.drive(ctx, exe, 'mutate', extra=['-only', r['base']], env={'VERIF_EXPORT': exp, 'VERIF_MUTATION': '%s|%s' % (r['path'], r['op'])})
